@@ -2,7 +2,8 @@
     (enumerate / take(limit) / skip(skip + fast_forward + rank) / step_by(world_size)),
     delivered streams, and transparency of the threaded stages. *)
 From Coq Require Import Sorting.Sorted.
-From TU Require Import Base C08_Model C08_Proofs C08_Check Pipe_Model Pipe_Proofs Pipe_Proofs2 Pipe_Proofs3 C05_Model C05_Proofs C09_Model C09_Proofs.
+From Coq Require Import Sorting.Permutation.
+From TU Require Import Base C06_Model C06_Top C08_EndToEnd C08_Model C08_Proofs C08_Check Pipe_Model Pipe_Proofs Pipe_Proofs2 Pipe_Proofs3 C05_Model C05_Proofs C09_Model C09_Proofs.
 
 (** which global indices a rank selects *)
 Theorem sel_mem : forall lim skip ff rank W N i, 1 <= W ->
@@ -87,6 +88,64 @@ Print Assumptions buffered_stage_transparent.
 Theorem check_run : forall v, 1 <= v_nat (v_nth 7 v) -> check_C08 v (run_C08 v) = true.
 Proof. exact check_run_l. Qed.
 Print Assumptions check_run.
+
+(** ** End to end: the loader as the composition of the modelled stages (C08_EndToEnd.v).
+    [data] is the generator's output position by position ([None]: the line did not parse), [g i d] the
+    pipeline's result for the item of global position [i] ([None]: Err, dropped).  [loader_items] is what
+    one rank hands to its batcher. *)
+
+(** the positions a rank delivers are C08's [stream] for the oracles derived from [data] and [g] *)
+Theorem loader_positions : forall (D B : Type) (data : list (option D)) (g : nat -> D -> option B) lim skip ff rank W,
+  map fst (loader_items data g lim skip ff rank W) = stream (oks data) (ress data g) lim skip ff rank W (length data).
+Proof. exact @loader_positions_l. Qed.
+Print Assumptions loader_positions.
+
+(** every delivered item is the pipeline's value for its global position, whatever rank, world size,
+    skip or fast-forward offset delivers it *)
+Theorem loader_item_value : forall (D B : Type) (data : list (option D)) (g : nat -> D -> option B) lim skip ff rank W i b,
+  In (i, b) (loader_items data g lim skip ff rank W) -> exists d, nth i data None = Some d /\ g i d = Some b.
+Proof. exact @loader_item_value_l. Qed.
+Print Assumptions loader_item_value.
+
+(** the items of the W ranks together are a permutation of the single-process items *)
+Theorem world_items_perm : forall (D B : Type) (data : list (option D)) (g : nat -> D -> option B) lim skip ff W, 1 <= W ->
+  Permutation (concat (map (fun r => loader_items data g lim skip ff r W) (seq 0 W))) (loader_items data g lim skip ff 0 1).
+Proof. exact @world_items_perm_l. Qed.
+Print Assumptions world_items_perm.
+
+(** ... and so are their batches: for every batching mode, limit type, limit, prefetch factor and every
+    oracle (= rng state) per rank, all batches of all ranks hold exactly the single-process items, each once;
+    no batch is empty and every batch with more than one item respects the limit (C06's theorems, composed) *)
+Theorem world_batches_partition : forall (D B : Type) (data : list (option D)) (g : nat -> D -> option B)
+    (size : nat * B -> nat) sort shuffle prefetch blim ty os lim skip ff W bss, 1 <= W ->
+  world_batches data g size sort shuffle prefetch blim ty os lim skip ff W bss ->
+  Permutation (concat (concat bss)) (loader_items data g lim skip ff 0 1).
+Proof. exact @world_batches_partition_l. Qed.
+Print Assumptions world_batches_partition.
+
+Theorem world_batches_wellformed : forall (D B : Type) (data : list (option D)) (g : nat -> D -> option B)
+    (size : nat * B -> nat) sort shuffle prefetch blim ty os lim skip ff W bss r, r < W ->
+  world_batches data g size sort shuffle prefetch blim ty os lim skip ff W bss ->
+  Forall (fun b => b <> []) (nth r bss []) /\
+  Forall (fun b => 1 < length b -> limit size ty b <= Nat.max blim 1) (nth r bss []).
+Proof. exact @world_batches_wellformed_l. Qed.
+Print Assumptions world_batches_wellformed.
+
+(** Non-vacuity: two ranks over five lines (line 2 does not parse, the pipeline fails on position 3),
+    batches of at most two items *)
+Example world_example :
+  let data := [Some 10; Some 11; None; Some 13; Some 14] in
+  let g := fun (i d : nat) => if Nat.eqb i 3 then None else Some (d * 2) in
+  let o := {| shuf := fun _ _ => []; pick := fun _ _ => 0 |} in
+  loader_items data g 5 0 0 0 2 = [(0, 20); (4, 28)] /\ loader_items data g 5 0 0 1 2 = [(1, 22)] /\
+  loader_items data g 5 0 0 0 1 = [(0, 20); (1, 22); (4, 28)] /\
+  world_batches data g (fun _ => 1) false false 1 2 BatchSize (fun _ => o) 5 0 0 2 [[[(0, 20); (4, 28)]]; [[(1, 22)]]].
+Proof.
+  cbv zeta. split; [vm_compute; reflexivity|]. split; [vm_compute; reflexivity|]. split; [vm_compute; reflexivity|].
+  split; [reflexivity|]. intros r Hr. destruct r as [|[|r]]; [vm_compute; reflexivity|vm_compute; reflexivity|].
+  exfalso. apply (PeanoNat.Nat.lt_irrefl 2). apply (PeanoNat.Nat.le_lt_trans _ (S (S r))); [|exact Hr].
+  apply le_n_S, le_n_S, PeanoNat.Nat.le_0_l.
+Qed.
 
 (** Non-vacuity / sanity: 3 ranks over 10 items, skip 1, limit 9 *)
 Example sel_example :
